@@ -36,6 +36,8 @@ type PackCase struct {
 	Flags   []bool   `json:"flags,omitempty"`
 	FailAt  int      `json:"fail_at"`
 	Risky   bool     `json:"risky,omitempty"` // contains shapes that may hang an unrepaired Pack (cycles, fifos)
+	// ModelOnly: the case is compared with the model only (no oracle is evaluated on it)
+	ModelOnly bool `json:"model_only,omitempty"`
 }
 
 type PackObs struct {
@@ -58,7 +60,7 @@ const srcAbs = "/w/src"
 func mt(sec int64, frac int64) (int64, int64) { return sec, frac }
 
 func genPackTree(rng *Rng, risky bool) (*TNode, bool, string) {
-	names := []string{"a", "b.txt", "c", "d", "sp ace", "-dash", ".hidden", "e.tf", "sub", "z", "..data", "...", "b\\c", "mod-a", "sub.tf", "n\nl"}
+	names := []string{"a", "b.txt", "c", "d", "sp ace", "-dash", ".hidden", "e.tf", "sub", "z", "..data", "...", "b\\c", "mod-a", "sub.tf", "n\nl", "d\u00e9j\u00e0"}
 	fracs := []int64{0, 400000000, 500000000, 600000000, 999999999, 1}
 	perms := []uint32{0o644, 0o600, 0o755, 0o444, 0o400, 0o777, 0o640, 0o000, 0o001}
 	hasOutLink := false
@@ -338,6 +340,9 @@ func runPackCase(c *PackCase, work string, rng *Rng, ignoreText string, hasOut b
 	if resp.Crashed != "" {
 		return obs, vs
 	}
+	if c.ModelOnly {
+		return obs, vs // serves the correspondence only: the oracles presuppose the canonical spelling of the root
+	}
 	srcTree := lookupT(c.Init, srcAbs)
 	ok := resp.Err == ""
 	// ---- C20 ----
@@ -488,8 +493,12 @@ func runPackCase(c *PackCase, work string, rng *Rng, ignoreText string, hasOut b
 			}
 		}
 	}
+	if !ok && !resp.Illegal && !hasOut && !c.Risky && c.FailAt < 0 && c.Src == "/w/src" && resp.Panic == "" && !resp.Timeout && resp.Crashed == "" {
+		vs = append(vs, viol("C02", "Pack refuses a tree of regular files, directories, special files and links that stay inside: "+resp.Err))
+	}
 	if !ok && resp.Illegal && !hasOut {
 		vs = append(vs, viol("C05", "illegal-slug error for a tree whose links all stay inside the source directory: "+resp.Err))
+		vs = append(vs, viol("C02", "Pack refuses (illegal slug) a tree whose links all stay inside the source directory: "+resp.Err))
 	}
 	if ok && !c.Deref {
 		// an out-of-tree link that is visited (not ignored) must make Pack fail
@@ -831,6 +840,38 @@ func runPackStream(o *Opts) {
 					}
 				}
 			}
+		}
+	}
+	// files larger than any copy buffer, in the tree and behind a dereferenced link, and an ignore file that is a directory
+	{
+		r := NewRng(11)
+		tree, _, _ := genPackTree(r, false)
+		big := strings.Repeat("0123456789abcdef", 2048+1) // 32784 bytes: one byte-chunk more than 32 KiB
+		src := tdir(0o755, map[string]*TNode{"a": tfile("root-a", 0o644), "big.bin": tfile(big, 0o644), "to-big": tlink("../outside/big2")})
+		tree.Kids["w"].Kids["outside"].Kids["big2"] = tfile(big+big+"tail", 0o600)
+		tree.Kids["w"].Kids["src"] = src
+		for _, deref := range []bool{false, true} {
+			jobs = append(jobs, job{&PackCase{Init: tree, Src: "/w/src", Cwd: "/", Deref: deref, FailAt: -1}, "", true, rng.Fork()})
+		}
+		r2 := NewRng(11)
+		tree2, _, _ := genPackTree(r2, false)
+		src2 := tdir(0o755, map[string]*TNode{"a": tfile("root-a", 0o644), ".terraformignore": tdir(0o755, map[string]*TNode{"x": tfile("x", 0o644)}),
+			".git":       tdir(0o755, map[string]*TNode{"HEAD": tfile("ref", 0o644)}),
+			".terraform": tdir(0o755, map[string]*TNode{"plugins": tfile("p", 0o644), "modules": tdir(0o755, map[string]*TNode{"m": tfile("m", 0o644)})})})
+		tree2.Kids["w"].Kids["src"] = src2
+		for _, legacy := range []bool{false, true} {
+			jobs = append(jobs, job{&PackCase{Init: tree2, Src: "/w/src", Cwd: "/", Ignore: true, Legacy: legacy, FailAt: -1}, "", false, rng.Fork()})
+		}
+	}
+	// the source given as a link whose (absolute) target passes through a linked parent directory, with an absolute
+	// in-tree link spelled the same way: the link text is the root, no further resolution
+	{
+		r := NewRng(11)
+		tree, _, _ := genPackTree(r, false)
+		tree.Kids["w"].Kids["src"] = tdir(0o755, map[string]*TNode{"a": tfile("root-a", 0o644), "x": tlink("/wl/src/a"), "y": tlink("a")})
+		tree.Kids["w"].Kids["entry"] = tlink("/wl/src")
+		for _, deref := range []bool{false, true} {
+			jobs = append(jobs, job{&PackCase{Init: tree, Src: "/w/entry", Cwd: "/", Deref: deref, FailAt: -1, ModelOnly: true}, "", true, rng.Fork()})
 		}
 	}
 	// the bound on the length of a link chain that dereferencing follows: chains of 39, 40 and 41 links
